@@ -93,7 +93,8 @@ func (obj JsonWebEncryption) computeAuthData() []byte {
 	}
 
 	output := []byte(protected)
-	if obj.aad != nil {
+	// An empty aad is no aad: it is not serialized, so the parsed object has none.
+	if len(obj.aad) > 0 {
 		output = append(output, '.')
 		output = append(output, []byte(base64URLEncode(obj.aad))...)
 	}
